@@ -8,7 +8,8 @@ HARNESS = "c17"
 N = {"quick": 200, "thorough": 4000}
 CORRESPONDENCES = ["expansion of every yearly schedule to daily-schedule ids (get_year_as_day_sch) and number of hourly values",
                    "period lengths of a converted HULC yearly schedule from its end dates",
-                   "occ_spaces_hours_in_use, occ_spaces_average_load and loads_avg of each loads definition"]
+                   "occ_spaces_hours_in_use, occ_spaces_average_load and loads_avg of each loads definition",
+                   "runs (daily schedule, number of days) of a converted HULC weekly schedule = weekRuns of its 7 written day names"]
 RULE = ("yearly schedules with 1..12 periods over 7-day, 1-run, short, long, empty and dangling weekly schedules; a shipped project "
         "re-converted with its yearly schedule rewritten to random increasing end-date lists (all 364 single cut dates in thorough); "
         "real and generated models with 1..6 occupied spaces sharing or not sharing schedules; non-trivial = more than one period / "
@@ -44,6 +45,12 @@ def compare(case, out):
                 res.append((CORRESPONDENCES[1], f"dates {case['dates']}: impl periods {imp['counts']}, model {out.get('counts')}"))
         elif out.get("counts") is not None and imp["outcome"] != "err":
             res.append((CORRESPONDENCES[1], f"dates {case['dates']}: impl {imp}, model {out.get('counts')}"))
+    elif op == "weekruns":
+        _stats["weekly_schedules"] += 1
+        got = [tuple(r) for r in case["impl"]["runs"]]
+        want = [tuple(r) for r in out.get("runs", [])]
+        if len(case["days"]) == 7 and got != want:
+            res.append((CORRESPONDENCES[3], f"week {case['label']} written {case['days']}: implementation runs {got}, model {want}"))
     elif op == "occupancy":
         imp = case["impl"]
         if imp["outcome"] != "ok" or "hours_in_use" not in out:
@@ -96,6 +103,15 @@ def oracle(case):
             v.append({"what": f"end dates {dates} (day, month) give periods {imp['counts']}, the calendar gives {want}", "key": {"class": "periods-partition"}})
         elif imp["outcome"] == "ok" and sum(imp["counts"]) != 365:
             v.append({"what": f"periods {imp['counts']} do not add up to 365", "key": {"class": "periods-sum"}})
+    elif op == "weekruns":
+        runs = case["impl"]["runs"]
+        days = case["days"]
+        if len(days) == 7:
+            expanded = [r[0] for r in runs for _ in range(r[1])]
+            if sum(r[1] for r in runs) != 7:
+                v.append({"what": f"weekly schedule written {days} is converted into runs covering {sum(r[1] for r in runs)} days: {runs}", "key": {"class": "week-runs-cover"}})
+            elif expanded != days:
+                v.append({"what": f"weekly schedule written {days} is converted into runs that expand to {expanded}", "key": {"class": "week-runs-order"}})
     elif op == "occupancy":
         imp = case["impl"]
         if imp["outcome"] == "panic":
